@@ -72,7 +72,7 @@ def cases(tier, seed):
             continue   # internal BANE on every 4th realisation (160x160 images, slower)
         yield "C", dict(real=real, mode=mode, rms=rmsmode, snr=snr, shape=list(SHAPES_T[s]))
     # elongated sources at fixed orientations (the position-angle error depends on the orientation in pixel space)
-    for real, pa, snr in itertools.product(range(nreal if q else 40), [0.0, 35.0, 70.0], [200, 500]):
+    for real, pa, snr in itertools.product(range(24 if q else 40), [0.0, 35.0, 70.0, 90.0], [200, 500]):
         yield "C", dict(real=real, mode="white", rms="forced", snr=snr, shape=[3.0, 1.5], pa=pa)
 
 
